@@ -38,6 +38,44 @@ func bRecover() (r string) {
 	}()
 	panic("boom")
 }
+// recover() in a deferred closure of a function that returns normally, no panic in flight:
+// must be nil whatever frame the interpreter hands out. The closure pins the frame, so
+// every call takes the next pooled frame for good: n calls walk through the frame pool.
+func bSafe() (r interface{}) {
+	defer func() { r = recover() }()
+	return nil
+}
+func bSafeAt(depth int) interface{} {
+	if depth <= 1 {
+		return bSafe()
+	}
+	return bSafeAt(depth - 1)
+}
+func bSafeVoid() {
+	defer func() {
+		if r := recover(); r != nil {
+			bLog = append(bLog, fmtSprint("bSafeVoid recovered ", r))
+		}
+	}()
+}
+func bRecoverSweep(n int) string {
+	var bad []string
+	for d := 4; d >= 1; d-- {
+		for i := 0; i < 2; i++ {
+			if r := bSafeAt(d); r != nil {
+				bad = append(bad, fmtSprint("depth", d, ":", r))
+			}
+		}
+	}
+	for i := 0; i < n; i++ {
+		bSafeVoid()
+		if r := bSafe(); r != nil {
+			bad = append(bad, fmtSprint("call", i, ":", r))
+		}
+		bFib(3) // intervening calls that take and return pooled frames
+	}
+	return fmtSprint("sweep", n, bad, len(bLog))
+}
 func bRecoverOutsideDefer() string {
 	e := recover()
 	return fmtSprint("plain:", e)
@@ -286,6 +324,9 @@ type Item struct {
 // Battery is the fixed list of later evaluations. Items that declare new things come
 // last so that the definitions made *after* the abort are exercised too.
 var Battery = []Item{
+	// first, before anything else takes frames out of the pool left by the aborted evaluation
+	{"eval", "bSafe()"},
+	{"eval", "bRecoverSweep(40)"},
 	{"eval", "Depth()"},
 	{"eval", "bDeferOrder()"},
 	{"eval", "bRecover()"},
@@ -327,6 +368,7 @@ var Battery = []Item{
 	{"repl", "bInnerDefer()"},
 	{"repl", "bUncaught()"},
 	{"eval", "bDepthInDefer()"},
+	{"eval", "bRecoverSweep(8)"},
 	// declarations made after the abort
 	{"eval", "func bNew(x int) (r int) { defer func() { if recover() != nil { r = -x } }(); if x > 2 { panic(x) }; return x + Depth() }"},
 	{"eval", "bNew(1)*1000 + bNew(5)"},
